@@ -1,0 +1,66 @@
+//go:build verif
+
+package file
+
+// Contracts for govc (see /verif/DESIGN.md and /repo/verif_contracts.go for the syntax).
+// Comment-only; compiled only under the build tag `verif`.
+
+// A7: the file system as ghost state. fsHas[p]: a file exists at path p; fsData[p]: its bytes.
+//@ ghost G.fsHas (Array Bytes Bool)
+//@ ghost G.fsData (Array Bytes Bytes)
+//@ smt (define-fun has ((h Heap) (p Bytes)) Bool (select (h.G.fsHas h) p))
+//@ smt (define-fun data ((h Heap) (p Bytes)) Bytes (select (h.G.fsData h) p))
+//@ smt (declare-fun pathJoin (Bytes Bytes) Bytes)
+//@ smt (declare-fun isNotExist (Any) Bool)
+//@ smt (declare-fun isPrefixOf (Bytes Bytes) Bool)
+// OthersSame: no path other than p changed
+//@ smt (define-fun OthersSame ((h0 Heap) (h Heap) (p Bytes)) Bool (forall ((q Bytes)) (! (=> (not (= q p)) (and (= (has h q) (has h0 q)) (= (data h q) (data h0 q)))) :pattern ((has h q)) :pattern ((data h q)))))
+// NoPartial: the file at p is absent or holds exactly b
+//@ smt (define-fun NoPartial ((h Heap) (p Bytes) (b Bytes)) Bool (=> (has h p) (= (data h p) b)))
+
+//@ assumption A7: os.ReadFile/Stat/WriteFile/Rename/Remove/CreateTemp behave as the abstract contracts below state; a write may stop after any prefix of the data and then reports an error (or the process dies there: the state right after each call is a crash state); rename is atomic; filepath.Join is a function of its arguments
+//@ assumption content addressing (C08): the bytes passed to Store under a name are always the same bytes for that name, so an existing complete file under the final path holds exactly these bytes
+
+//@ abstract filepath.Join (elem) -> (r)
+//@ pure
+
+//@ abstract os.ReadFile (name) -> (b err)
+//@ pure
+//@ ensures ok (=> (= err anil) (and (has H name) (= (bs.val b) (data H name))))
+//@ ensures missing (=> (not (has H name)) (isErr err))
+
+//@ abstract os.Stat (name) -> (info err)
+//@ pure
+//@ ensures notexist (=> (isNotExist err) (and (isErr err) (not (has H name))))
+//@ ensures ok (=> (= err anil) (has H name))
+//@ ensures missing (=> (not (has H name)) (isErr err))
+
+//@ abstract os.IsNotExist (err) -> (r)
+//@ pure
+//@ ensures def (= r (isNotExist err))
+
+//@ abstract os.WriteFile (name b perm) -> (err)
+//@ modifies G.fsHas G.fsData
+//@ ensures ok (=> (= err anil) (and (has H name) (= (data H name) (bs.val b))))
+//@ ensures torn (=> (isErr err) (=> (has H name) (isPrefixOf (data H name) (bs.val b))))
+//@ ensures frame (OthersSame H0 H name)
+
+//@ func (Persist).Load
+//@ tags C17 C18
+//@ modifies W
+//@ ensures ok [C18] (=> (= err anil) (and (has H0 (pathJoin (S_Persist.basepath p) name)) (= (bs.val result0) (data H0 (pathJoin (S_Persist.basepath p) name)))))
+//@ ensures missing [C18] (=> (not (has H0 (pathJoin (S_Persist.basepath p) name))) (isErr err))
+
+//@ func (Persist).Store
+//@ tags C17 C18
+//@ modifies W G.fsHas G.fsData
+//@ requires addressed [C17] (NoPartial H (pathJoin (S_Persist.basepath p) name) (bs.val bytes))
+//@ ensures written [C17 C18] (=> (= err anil) (and (has H (pathJoin (S_Persist.basepath p) name)) (= (data H (pathJoin (S_Persist.basepath p) name)) (bs.val bytes))))
+//@ ensures nopartial [C17] (NoPartial H (pathJoin (S_Persist.basepath p) name) (bs.val bytes))
+//@ ensures others [C18] (OthersSame H0 H (pathJoin (S_Persist.basepath p) name))
+//@ after-each-call nopartial [C17] (NoPartial H (pathJoin (S_Persist.basepath p) name) (bs.val bytes))
+
+//@ func (Persist).NodeURLPrefix
+//@ tags C18
+//@ pure
+//@ ensures def (= result (S_Persist.basepath p))
